@@ -1200,7 +1200,10 @@ func (s *e20Suite) opTx() {
 			to = make([]byte, 20)
 		}
 		if r.Intn(3) == 0 {
-			amt = amt.MulRaw(int64(1 + r.Intn(5))) // an allowance may exceed the balance
+			// an allowance may exceed the balance (kept within 255 bits: sdkmath.Int panics beyond 256)
+			if v := new(big.Int).Mul(amt.BigInt(), big.NewInt(int64(1+r.Intn(5)))); v.BitLen() <= 255 {
+				amt = sdkmath.NewIntFromBigInt(v)
+			}
 		}
 	}
 	s.doTx(c, holder, call, to, amt, s.pickDev("tx", 1, 8))
@@ -1590,6 +1593,16 @@ func runErc20(seed uint64, nOps int, outPath string, honest bool, realFrom int) 
 		}
 		for i := 0; i < perWorld && done < nOps; i++ {
 			b := s.t.seq
+			// a panic while *generating* an operation (arithmetic on extreme values) must not end the run
+			func() {
+				defer func() {
+					if x := recover(); x != nil {
+						s.stat["generator-panic"]++
+						s.stat["panicmsg:generator:"+fmt.Sprint(x)]++
+						s.later, s.noLater = false, false
+						s.sync()
+					}
+				}()
 			switch k := s.r.Intn(100); {
 			case k < 22:
 				s.opConvertCoin()
@@ -1632,6 +1645,7 @@ func runErc20(seed uint64, nOps int, outPath string, honest bool, realFrom int) 
 			default:
 				s.opReimport()
 			}
+			}()
 			count(b)
 			if i%100 == 99 {
 				s.sync()
